@@ -5,7 +5,7 @@
   list of element hashes and every memo state.  Supplementary (see Serif/Tie/Typing.lean).
 -/
 import Serif.Gen.Translated
-import Serif.Model.Fingerprint
+import Serif.Proofs.Fingerprint
 
 namespace Serif.Tie
 open Serif Serif.Gen.T
@@ -31,13 +31,32 @@ theorem computeFingerprintFull_table_eq (fps : List Int) : computeFingerprintFul
   simp only [computeFingerprintFullStepT, FP.roll]
   exact Int.fmod_eq_emod_of_nonneg _ P_nonneg
 
-/-- nested sequences are hashed with the same rolling hash (why a table's fingerprint is `Htab`) -/
-theorem hashSequence_eq (hs : List Int) : hashSequenceT FP.P FP.B hs = FP.fpVec hs := by
-  unfold hashSequenceT FP.fpVec FP.H FP.ev
+/-- the translated starting value of the container branch is the accumulator the model reads off the behaviour, for every
+    tabulated (kind, length) -/
+theorem hashSequence_seed_eq :
+    Gen.fpSeeds.all (fun e => decide (hashSequenceSeedT e.1.1 e.1.2 = e.2)) = true := by decide +kernel
+
+/-- container-valued elements are hashed with the same rolling hash, from the starting value of their kind and length: the
+    translated branch is the model's `Elem.hash` of a container, for every kind and all items, wherever the translated starting
+    value is the model's (`hashSequence_seed_eq`: on the whole table) -/
+theorem hashSequence_eq (kind : Nat) (es : List FP.Elem)
+    (hseed : hashSequenceSeedT kind es.length = FP.seedOf kind es.length) :
+    hashSequenceT FP.P FP.B kind (es.map FP.Elem.hash) = (FP.Elem.seq kind es).hash := by
+  rw [FP.Elem.hash_seq]
+  unfold hashSequenceT FP.ev
+  rw [List.length_map, hseed]
   congr 1
   funext t x
   simp only [hashSequenceStepT, FP.roll]
   exact Int.fmod_eq_emod_of_nonneg _ P_nonneg
+
+/-- … in particular for sets, tuples and lists of up to six items -/
+theorem hashSequence_eq_small (kind : Nat) (hk : kind = 1 ∨ kind = 2 ∨ kind = 3) (es : List FP.Elem) (hlen : es.length ≤ 6) :
+    hashSequenceT FP.P FP.B kind (es.map FP.Elem.hash) = (FP.Elem.seq kind es).hash := by
+  apply hashSequence_eq
+  have : es.length = 0 ∨ es.length = 1 ∨ es.length = 2 ∨ es.length = 3 ∨ es.length = 4 ∨ es.length = 5 ∨ es.length = 6 := by
+    omega
+  rcases hk with h | h | h <;> subst h <;> rcases this with h | h | h | h | h | h | h <;> rw [h] <;> decide +kernel
 
 /-- `Vector.fingerprint` answers from the memo when it is set and otherwise computes and memoises: exactly the
     model's `fingerprint` step on a vector object and its `fpRead` -/
